@@ -3,7 +3,7 @@
 spec/Qualification.tla is a transcription of core/ceremony/qualification.go (qualifyOneFlip, qualifyFlips, qualifyCandidate,
 getFlipStatusForCandidate) and reporters.go (the reporters book, the grades book of upgrade 11) - the function family between
 the answers recorded in blocks and the inputs of the status decision table (Ceremony.tla) - with the design-level properties
-as clauses (GradeConsistent, AnswerBacked, ConsensusHonoured, OnlyAssigned, ReportLimit, RewardOnlyReported, NoAnswerNoPoint,
+as clauses (GradeConsistent, ReportHonoured, AnswerBacked, ConsensusHonoured, OnlyAssigned, ReportLimit, RewardOnlyReported, ReportersRewarded, NoAnswerNoPoint,
 ScoreInRange, PointJustified, QualifiedCounts, TestingFlips, Deterministic, PermutationInvariant, BookConsistent, BookOperation).
 
 1. TLC: MC_QualOne (case table of qualifyOneFlip: every answer split, every committee, the big flips where 66 % is hit
@@ -31,8 +31,8 @@ import threading
 import vlib
 
 TRACE = ("Trace_Qualification.tla", "Trace_Qualification.cfg")
-CLAUSES = ("GradeConsistent", "AnswerBacked", "ConsensusHonoured", "OnlyAssigned", "ReportLimit", "RewardOnlyReported",
-           "NoAnswerNoPoint", "ScoreInRange", "PointJustified", "QualifiedCounts", "TestingFlips", "Deterministic",
+CLAUSES = ("GradeConsistent", "ReportHonoured", "AnswerBacked", "ConsensusHonoured", "OnlyAssigned", "ReportLimit", "RewardOnlyReported",
+           "ReportersRewarded", "NoAnswerNoPoint", "ScoreInRange", "PointJustified", "QualifiedCounts", "TestingFlips", "Deterministic",
            "PermutationInvariant", "BookConsistent", "BookOperation", "ResultShape")
 ASSUMPTIONS = [
     "upgrade flags in force: (upgrade10, upgrade11) in {(off, off), (on, off), (on, on)} - the repository's consensus versions 9, 10, 12; "
@@ -78,12 +78,10 @@ def _dedup(exports, key):
     return res
 
 
-def _family(pop):
-    """Which generator family a population looks like (for keys and coverage only)."""
-    c = pop["cands"]
-    if c and all(len(x["f"]) == 3 and x["f"][0] == 0 for x in c) and pop["nf"] == 1 + 2 * len(c):
-        return "committee%d" % len(c)
-    return "other"
+def _family(e):
+    """The generator family of an exported population (for keys and coverage only)."""
+    fam = e.get("fam", "random")
+    return "committee%d" % len(e["pop"]["cands"]) if fam == "committee" else fam
 
 
 def _validate(ctx, path, sub):
@@ -116,9 +114,10 @@ def _signature(name, row, scen):
             return "one:%s:committee%d-reports%d" % (fl, row["rcs"], row["rep"])
         return "one:%s:l%d-r%d-n%d" % (fl, row["l"], row["r"], row["n"])
     if ev in ("Flips", "FlipsV"):
-        pop = scen.get(row.get("sid"), {})
+        e = scen.get(row.get("sid"))
+        pop = e["pop"] if e else row.get("pop") or {}
         fl = ("u10" * bool(pop.get("u10")) + "u11" * bool(pop.get("u11")) or "v9") if pop else "?"
-        return "flips:%s:%s%s" % (fl, _family(pop) if pop else "?", (":" + row["var"]) if ev == "FlipsV" else "")
+        return "flips:%s:%s%s" % (fl, _family(e) if e else "random", (":" + row["var"]) if ev == "FlipsV" else "")
     if ev in ("Cand", "CandV"):
         base = row if ev == "Cand" else scen.get(("cand", row.get("sid")), {})
         return "cand:%s%s" % ("short" if base.get("short") else "long", (":" + row["var"]) if ev == "CandV" else ":has%s" % base.get("has"))
@@ -273,7 +272,7 @@ def run(ctx, quick):
         pool.submit(_model, ctx, "cand", "MC_QualCand.tla", "MC_QualCand.cfg", 2),
         pool.submit(_model, ctx, "candsim", "MC_QualCand.tla", "MC_QualCand_sim.cfg", 1,
                     ["-simulate", "num=%d" % ncsim, "-depth", "30", "-seed", str(ctx.seed)], True),
-        pool.submit(_model, ctx, "book", "MC_QualBook.tla", "MC_QualBook_%s.cfg" % tier, 2),
+        pool.submit(_model, ctx, "book", "MC_QualBook.tla", "MC_QualBook_%s.cfg" % tier, 1),    # one worker: the exported paths do not depend on timing
     ]
     res = dict(j.result() for j in jobs)
     states = sum(r.distinct for r in res.values())
@@ -292,11 +291,11 @@ def run(ctx, quick):
         for rep in (False, True):
             if not exp1.get((st, rep)):
                 raise vlib.CheckError("case table without a case of status %d / reported=%s (vacuous bounds)" % (st, rep))
-    fam = collections.Counter(_family(e["pop"]) for e in pops)
+    fam = collections.Counter(_family(e) for e in pops)
     nrep = sum(1 for e in pops for q in e["expect"]["fq"] if q["gr"] == 1)
     nrew = sum(1 for e in pops for x in e["expect"]["rw"] if x)
     nwr = sum(1 for e in pops for x in e["expect"]["wr"] if x >= 0)
-    if not (nrep and nrew and nwr and fam.get("committee2") and fam.get("other")):
+    if not (nrep and nrew and nwr and all(fam.get(k) for k in ("committee2", "committee3", "allowance", "silent", "decode", "sim"))):
         raise vlib.CheckError("population model without reported flips / rewarded reporters / ignored graders (vacuous bounds): %s" % dict(fam))
     ctx.log("models: %d generated / %d distinct states; exported %d flip cases, %d populations (%s), %d candidate contexts, %d book paths"
             % (trans, states, len(ones), len(pops), ", ".join("%s=%d" % kv for kv in sorted(fam.items())), len(ctxs), len(books)))
@@ -308,7 +307,7 @@ def run(ctx, quick):
     lean = 3 if quick else 2
     scen = {}
     for i, e in enumerate(pops):
-        scen[i] = e["pop"]
+        scen[i] = e
     shards = []
     for s in range(nshard):
         d = {}
@@ -347,8 +346,8 @@ def run(ctx, quick):
     for _, s1, _ in results:
         st.update(s1)
     ctx.log("real code: " + " ".join("%s=%d" % kv for kv in sorted(st.items())))
-    need = ["ones", "pops", "cands", "ctxs", "variants", "reported", "rewarded", "wrong", "noanswer", "st0", "st1", "st2", "st3",
-            "book_add", "book_delf", "book_delr", "book_res"]
+    # vacuity on the INPUT side only (what the real code made of the inputs is for the clauses to judge)
+    need = ["ones", "pops", "cands", "ctxs", "variants", "nopayload", "book_add", "book_delf", "book_delr", "book_res"]
     for k in need:
         if not st.get(k):
             raise vlib.CheckError("the driver never produced '%s' (dead driver)" % k)
@@ -379,7 +378,7 @@ def run(ctx, quick):
         "qual_trace_lines": st["lines"],
         "qual_exported": {"flip_cases": len(ones), "populations": len(pops), "population_families": dict(fam), "candidate_contexts": len(ctxs),
                           "book_paths": len(books)},
-        "qual_real": {k: st.get(k, 0) for k in ("ones", "pops", "cands", "ctxs", "variants", "bookops", "reported", "rewarded", "wrong", "noanswer",
+        "qual_real": {k: st.get(k, 0) for k in ("ones", "pops", "cands", "ctxs", "variants", "bookops", "nopayload", "reported", "rewarded", "wrong", "noanswer",
                                                 "st0", "st1", "st2", "st3", "book_add", "book_delf", "book_delr", "book_res")},
         "qual_random_scenarios": nrand * nshard,
         "qual_drift": {k: v for k, v in sorted(drift.items())},
